@@ -15,7 +15,10 @@ use super::try_sync_error::*;
 
 use std::fmt;
 use std::mem;
+#[cfg(not(desync_verif))]
 use std::sync::*;
+#[cfg(desync_verif)]
+use crate::verif::sync::*;
 use std::collections::vec_deque::*;
 use std::result::{Result};
 
@@ -730,4 +733,28 @@ pub fn sync<Result: Send, TFn: Send+FnOnce() -> Result>(queue: &Arc<JobQueue>, j
 ///
 pub fn try_sync<FnResult: Send, TFn: Send+FnOnce() -> FnResult>(queue: &Arc<JobQueue>, job: TFn) -> Result<FnResult, TrySyncError> {
     scheduler().try_sync(queue, job)
+}
+
+#[cfg(desync_verif)]
+impl Scheduler {
+    ///
+    /// (Verification builds only) sets the maximum number of threads without eagerly waking or spawning threads
+    ///
+    pub fn verif_set_max_threads(&self, max_threads: usize) {
+        { *self.core.max_threads.lock().expect("Max threads lock") = max_threads };
+    }
+
+    ///
+    /// (Verification builds only) the queues in the schedule, one character per pool thread ('B'usy, 'I'dle, 'L'ocked) and the maximum
+    /// number of threads, read without a scheduling point
+    ///
+    pub fn verif_snapshot(&self) -> (Vec<Arc<JobQueue>>, String, usize) {
+        let schedule    = self.core.schedule.verif_peek(|schedule| schedule.iter().cloned().collect()).unwrap_or_else(|| vec![]);
+        let threads     = self.core.threads.verif_peek(|threads| {
+            threads.iter().map(|&(ref busy, _)| match busy.verif_peek(|busy| *busy) { Some(true) => 'B', Some(false) => 'I', None => 'L' }).collect()
+        }).unwrap_or_else(|| "?".to_string());
+        let max_threads = self.core.max_threads.verif_peek(|max_threads| *max_threads).unwrap_or(0);
+
+        (schedule, threads, max_threads)
+    }
 }
